@@ -27,7 +27,7 @@ CLAIMS = {
 
 CLAIMS["C10"] = dict(
     text=("Every history of up to 5 (quick) / 6 (thorough) events per contact - answer, hearsay mention, query received, query sent, "
-          "wait of any length in [0, 40 min] at nanosecond resolution, from a symbolic clock start - is decided against a reference "
+          "wait of any length in [0, 68 min] at nanosecond resolution, from a symbolic clock start - is decided against a reference "
           "log stating what the property allows (good only with an answer/query within 15 min, hearsay-only stays questionable, "
           "two unanswered queries while not good drop the contact, an answer makes it good at once); plus the 15-minute boundary "
           "at 1 ns resolution. Bounded by the event count; node level only."),
@@ -64,7 +64,7 @@ CLAIMS["C09"] = dict(
           "Together: every bucket index is visited exactly once, nearest first. The enumeration's set-up over a table (start index = shared "
           "prefix, assorted nodes keyed by their own ideal index, sorted buckets read by index) is decided on a 3-bucket table. Iterating "
           "actual table contents (ClosestNodes::next) and the take(8)/family filter are outside (stated)."),
-    note="Loop-free integer kernel + one 161-step unrolling; no stubs. ClosestNodes::next on real tables did not terminate in CBMC (DESIGN.md F20/F22).",
+    note="Loop-free integer kernel + one 161-step unrolling; no stubs. ClosestNodes::next on real tables did not terminate in CBMC (DESIGN.md F20/F23).",
 )
 CLAIMS["C19"] = dict(
     text=("Generator level: from an arbitrary valid in-block state (any action id, any block, the two ids read arbitrary within a "
@@ -114,6 +114,11 @@ CLAIMS["C12"] = dict(
 NOT_APPLICABLE = {
     "C12": "the table-kernel harnesses (add_nodes on a directly built table) have not terminated within the tier cap yet; the handler-side clauses are out of reach anyway (F7)",
     "C01": "needs >=2 complete nodes (tokio runtime, spawned bootstrap task, UDP, 24 h of timers); a tokio runtime cannot be compiled by Kani (compiler panic on catch_unwind intrinsic) and DhtHandler does not terminate in CBMC (DESIGN.md F6/F7)",
+    "C02": "decided by TableLookup's round/end-game state machine over a sorted candidate Vec, three hash containers, a timer and a channel: no formulation of a one-step harness terminated in CBMC (DESIGN.md F13/F17/F18; std HashMap/HashSet and symbolic-extent Vec::insert are intractable, re-confirmed during the build: F23, 8.9); the cheap kernels (pick_* on fixed arrays) do not decide what is announced or yielded",
+    "C03": "same code and same obstacle as C02 (transaction-id gate and token bookkeeping live in TableLookup::recv_response / recv_finished over std HashMaps); routing by action prefix is handler.rs (F7)",
+    "C04": "needs the same TableLookup steps plus Timer (BTreeMap + tokio Sleep, which cannot be compiled by Kani without a stand-in and did not terminate with one, F18); stream closing is handler.rs (F7)",
+    "C05": "every clause is decided inside the async DhtHandler::handle_incoming (one reply, echoed transaction id, read-only mode, family selection, error codes); that function does not terminate in CBMC (F7) and needs a tokio runtime context even to construct the handler (seen again in the native-validation harness, which is sampling and therefore not used to claim this property)",
+    "C07": "every AnnounceStorage operation starts with a Vec::drain whose extent depends on the symbolic clock and goes through a std HashMap: the SAT instance exceeded 59 GB after two operations (F19/F17); port derivation and family filter are handler.rs (F7)",
     "C11": "hours of handler + refresh + timer + bootstrap under a runtime (F6/F7); no sequential kernel carries the claim",
     "C15": "the bootstrap task is task::spawn + tokio::time::sleep + select! + watch/Responded futures; none of it compiles under Kani (F6)",
     "C16": "decided by the handler's command path and the bootstrap watch channel, both out of the engine's reach (F6/F7)",
